@@ -5,6 +5,7 @@ Holds a *model* of every witness declaration and renders it to bitbybit attribut
 The model (not the macro's parser) is what the judge's oracle is computed from.
 Deterministic; sampled families use the seed."""
 import hashlib
+import os
 import itertools
 import json
 import random
@@ -1323,6 +1324,251 @@ def fam_dbg(tier, seed):
     return out
 
 
+# ------------------------------------------------------------------ RND: seeded random declarations
+
+
+RND_RAW_NAMES = ["r#type", "r#loop", "r#mod", "r#fn", "r#match", "r#ref", "r#move", "r#in"]
+
+
+def fam_rnd(tier, seed):
+    """random rule-valid declarations drawn from the whole feature grammar (base class x type kind x range form
+    x array form x position x access x default/debug x name style). The hand-written families fix the shapes
+    someone thought of; this one samples combinations nobody listed, differently for every VERIF_SEED."""
+    out = []
+    mod = "rnd"
+    helpers = []
+    ex = {}
+    for w in (1, 2, 3, 8):
+        e = mk_enum(mod, "RX%d" % w, w, list(range(1 << w)), family="RND")
+        ex[w] = e
+        helpers.append(e)
+    op = {}
+    for w in (2, 3, 5, 8, 16):
+        ds = sorted({1, (1 << w) - 2, 1 << (w - 1)})
+        e = mk_enum(mod, "RO%d" % w, w, ds, family="RND")
+        op[w] = e
+        helpers.append(e)
+    ne = {}
+    for w in (3, 8, 12, 16):
+        n_ = struct(mod, "RN%d" % w, w, [field("a", [(0, 0)], T_bool()), field("b", [(1, w - 1)], T_uint(w - 1))], debug=True, family="RND")
+        ne[w] = n_
+        helpers.append(n_)
+    rnd = random.Random(h("rnd", seed, tier))
+    WIDTHS = [1, 1, 2, 2, 3, 4, 5, 7, 8, 8, 9, 12, 15, 16, 16, 17, 24, 31, 32, 33, 48, 63, 64, 65, 100, 127, 128]
+
+    def pick_type(w_max, want=None):
+        """(type, width) with width <= w_max (and == want when given)"""
+        for _ in range(40):
+            kind = rnd.choice(["bool", "uint", "uint", "uint", "int", "enum", "optenum", "nested"])
+            if kind == "bool":
+                w = 1
+            elif kind == "uint":
+                w = want if want else rnd.choice(WIDTHS + [w_max])
+            elif kind == "int":
+                w = rnd.choice(NATIVE)
+            elif kind == "enum":
+                w = rnd.choice(sorted(ex))
+            elif kind == "optenum":
+                w = rnd.choice(sorted(op))
+            else:
+                w = rnd.choice(sorted(ne))
+            if w > w_max or w < 1 or (want and w != want):
+                continue
+            t = {"bool": T_bool(), "uint": T_uint(w, qualified=rnd.choice([0, 0, 0, 1, 2]) if not is_native(w) else False), "int": T_int(w)}.get(kind)
+            if kind == "enum":
+                t = T_enum("RX%d" % w, w, True)
+            elif kind == "optenum":
+                t = T_enum("RO%d" % w, w, False)
+            elif kind == "nested":
+                t = T_nested("RN%d" % w, w)
+            return t, w
+        return (T_uint(want), want) if want else (T_bool(), 1)
+
+    def split(w):
+        k = rnd.choice([2, 2, 3, 4])
+        k = min(k, w)
+        cuts = sorted(rnd.sample(range(1, w), k - 1)) if k > 1 else []
+        sizes = [b - a for a, b in zip([0] + cuts, cuts + [w])]
+        return sizes
+
+    def place(sizes, L, align):
+        """disjoint placement of pieces (ascending), inside [0, L); returns list of (lo, hi) in ascending position"""
+        w = sum(sizes)
+        slack = L - w
+        gaps = [0] * (len(sizes) + 1)
+        if len(sizes) > 1 and slack > 0:
+            for i in range(1, len(sizes)):
+                g = rnd.randint(0, max(0, min(slack, 6)))
+                gaps[i] = g
+                slack -= g
+        if align == "top":
+            gaps[0] = slack
+        elif align == "bottom":
+            gaps[0] = 0
+        else:
+            gaps[0] = rnd.randint(0, slack) if slack > 0 else 0
+        pos = gaps[0]
+        rs = []
+        for i, sz in enumerate(sizes):
+            if i:
+                pos += gaps[i]
+            rs.append((pos, pos + sz - 1))
+            pos += sz
+        return rs
+
+    def names(nf):
+        used = set()
+        res = []
+        raws = list(RND_RAW_NAMES)
+        rnd.shuffle(raws)
+        for i in range(nf):
+            st = rnd.random()
+            if st < 0.08 and raws:
+                nm = raws.pop()
+            elif st < 0.18:
+                nm = "_f%d" % i
+            elif st < 0.24:
+                nm = "f%d_" % i
+            elif st < 0.28:
+                nm = "__f%d" % i
+            else:
+                nm = "f%d" % i
+            res.append(nm)
+            used.add(nm)
+        return res
+
+    def access():
+        return rnd.choice(["rw", "rw", "rw", "rw", "r", "w", "r", "w", ""])
+
+    def free_field(N, nm):
+        t, w = pick_type(N)
+        is_arr = rnd.random() < 0.3 and 2 * w <= N
+        aligns = ["top", "top", "bottom", "any", "any"]
+        if is_arr:
+            nc = rnd.random() < 0.35 and w >= 2
+            sizes = split(w) if nc else [w]
+            kmax = N // w
+            K = min(kmax, rnd.choice([2, 2, 3, 4, 5, 8, kmax]))
+            # span of one element and the stride
+            span_budget = N - (K - 1) * 1
+            if nc:
+                elem_L = rnd.randint(w, min(N - (K - 1), w + 6))
+                rs = place(sizes, elem_L, "any")
+                span = rs[-1][1] + 1
+                smax = (N - span) // (K - 1)
+                if smax < 1:
+                    return free_field(N, nm)
+                stride = rnd.choice([1, span, smax, rnd.randint(1, smax)])
+                stride = max(1, min(stride, smax))
+                # no self-overlap inside one element is guaranteed by place(); elements may interleave / overlap
+                base_lo = rnd.choice([0, N - span - (K - 1) * stride, rnd.randint(0, N - span - (K - 1) * stride)])
+                rs = [(a + base_lo, b + base_lo) for a, b in rs]
+                order = list(rs)
+                rnd.shuffle(order)
+                return field(nm, order, t, access=access(), array={"k": K, "stride": stride}, syn=rnd.randrange(SYN))
+            smax = (N - w) // (K - 1)
+            stride = rnd.choice([None, None, w, smax, rnd.randint(w, smax)])
+            st = w if stride is None else stride
+            room = N - w - (K - 1) * st
+            lo = rnd.choice([0, room, rnd.randint(0, room)])
+            return field(nm, [(lo, lo + w - 1)], t, access=access(), array={"k": K, "stride": stride}, syn=rnd.randrange(SYN))
+        nc = rnd.random() < 0.3 and w >= 2
+        if nc:
+            sizes = split(w)
+            L = rnd.randint(w, N)
+            rs = place(sizes, L, "any")
+            span = rs[-1][1] + 1
+            base_lo = rnd.choice([0, N - span, rnd.randint(0, N - span)])
+            rs = [(a + base_lo, b + base_lo) for a, b in rs]
+            if N > 64 and rnd.random() < 0.3 and span < N:
+                pass
+            order = list(rs)
+            rnd.shuffle(order)
+            return field(nm, order, t, access=access(), syn=rnd.randrange(SYN))
+        al = rnd.choice(aligns)
+        lo = N - w if al == "top" else 0 if al == "bottom" else rnd.randint(0, N - w)
+        if N > 64 and w < N and rnd.random() < 0.25:
+            # straddle or touch bit 64
+            lo = max(0, min(N - w, 64 - rnd.randint(0, w)))
+        return field(nm, [(lo, lo + w - 1)], t, access=access(), syn=rnd.randrange(SYN), force_list=rnd.random() < 0.1)
+
+    def tile_struct(N, name):
+        """disjoint fields covering the base (builder expected unless a gap is left without a default)"""
+        segs = []
+        pos = 0
+        while pos < N:
+            w = min(N - pos, rnd.choice([1, 1, 2, 3, 4, 5, 8, 8, 12, 16, 24, 32, 64]))
+            if rnd.random() < 0.2 and 2 * w <= N - pos:
+                K = min((N - pos) // w, rnd.choice([2, 3, 4, 8]))
+                segs.append(("arr", pos, w, K))
+                pos += w * K
+            else:
+                segs.append(("one", pos, w, 1))
+                pos += w
+        nms = names(len(segs) + 2)
+        fs = []
+        pending = None
+        for i, (kind, lo, w, K) in enumerate(segs):
+            if kind == "arr":
+                t, _ = pick_type(w, want=w)
+                fs.append(field(nms[i], [(lo, lo + w - 1)], t, access=rnd.choice(["rw", "rw", "w"]), array={"k": K, "stride": rnd.choice([None, w])}, syn=rnd.randrange(SYN)))
+                continue
+            if pending is None and rnd.random() < 0.2 and i + 2 < len(segs):
+                pending = (lo, w)
+                continue
+            if pending is not None and rnd.random() < 0.6:
+                plo, pw = pending
+                pending = None
+                rs = [(plo, plo + pw - 1), (lo, lo + w - 1)]
+                if rnd.random() < 0.5:
+                    rs.reverse()
+                t, _ = pick_type(pw + w, want=pw + w)
+                fs.append(field(nms[i], rs, t, access=rnd.choice(["rw", "rw", "w"]), syn=rnd.randrange(SYN)))
+                continue
+            t, _ = pick_type(w, want=w)
+            fs.append(field(nms[i], [(lo, lo + w - 1)], t, access=rnd.choice(["rw", "rw", "rw", "w", "r"]), syn=rnd.randrange(SYN)))
+        if pending is not None:
+            plo, pw = pending
+            t, _ = pick_type(pw, want=pw)
+            fs.append(field(nms[-1], [(plo, plo + pw - 1)], t, access="rw", syn=rnd.randrange(SYN)))
+        rnd.shuffle(fs) if rnd.random() < 0.3 else None
+        covered = set()
+        for f in fs:
+            if "w" in f["access"]:
+                covered |= ffootprint(f)
+        dflt = None
+        if len(covered) < N or rnd.random() < 0.4:
+            dflt = {"form": rnd.choice(["=", ":"]), "value": rnd.getrandbits(N)}
+        if len(covered) < N and rnd.random() < 0.15:
+            dflt = None  # incomplete cover without default: no builder expected
+        return struct(mod, name, N, fs, default=dflt, family="RND")
+
+    count = 70 if tier == "quick" else 700
+    for i in range(count):
+        r = rnd.random()
+        if r < 0.45:
+            N = rnd.choice(NATIVE)
+        elif r < 0.75:
+            N = rnd.choice([1, 2, 3, 4, 5, 6, 7, 9, 12, 15, 17, 24, 31, 33, 48, 63, 65, 70, 96, 100, 127])
+        else:
+            N = rnd.randint(1, 127)
+            if is_native(N):
+                N += 1
+        if i % 3 == 2 and N >= 4:
+            s = tile_struct(N, "T%d_%d" % (i, N))
+        else:
+            nf = rnd.randint(1, 9)
+            nms = names(nf)
+            fs = [free_field(N, nms[j]) for j in range(nf)]
+            dflt = {"form": rnd.choice(["=", ":"]), "value": rnd.getrandbits(N)} if rnd.random() < 0.5 else None
+            dbg = all("r" in f["access"] and not f["array"] for f in fs) and rnd.random() < 0.7
+            s = struct(mod, "F%d_%d" % (i, N), N, fs, default=dflt, debug=dbg, family="RND")
+        add_const_witnesses(s, seed, maxn=2)
+        out.append(s)
+    return helpers, out
+
+
+
 def fam_misc(tier, seed):
     """declaration shapes around the fields: visibility, pass-through attributes, argument order, literal
     spellings, unusual field names, declaration order different from bit order, zero fields"""
@@ -1475,6 +1721,14 @@ def build_positive(tier, seed, harvested):
     for i, part in enumerate(chunk(rest, per)):
         c = Crate("pos_zoo_%d" % i)
         for d in helpers:
+            c.add(json.loads(json.dumps(d)))
+        for d in part:
+            c.add(d)
+        crates.append(c)
+    rh, rest = fam_rnd(tier, seed) if os.environ.get("VERIF_RND") else ([], [])
+    for i, part in enumerate(chunk(rest, 70 if tier == "quick" else 90)):
+        c = Crate("pos_rnd_%d" % i)
+        for d in rh:
             c.add(json.loads(json.dumps(d)))
         for d in part:
             c.add(d)
